@@ -279,13 +279,13 @@ func c15Run(c core.Case, env *core.Env) core.Result {
 func c15Refuse(r *core.Result, curve string, ec elliptic.Curve, q *big.Int, seed int64) {
 	two := new(big.Int).Lsh(q, 1)
 	bad := map[string][]*big.Int{
-		"id=0":          {big.NewInt(1), big.NewInt(0), big.NewInt(2)},
-		"id=q":          {big.NewInt(1), new(big.Int).Set(q), big.NewInt(2)},
-		"id=2q":         {two, big.NewInt(1), big.NewInt(2)},
-		"dup":           {big.NewInt(3), big.NewInt(4), big.NewInt(3)},
-		"i and i+q":     {big.NewInt(5), big.NewInt(6), new(big.Int).Add(q, big.NewInt(5))},
-		"i and i+2q":    {big.NewInt(5), new(big.Int).Add(two, big.NewInt(5)), big.NewInt(7)},
-		"q-1 and 2q-1":  {new(big.Int).Sub(q, big1), new(big.Int).Sub(two, big1), big.NewInt(7)},
+		"id=0":         {big.NewInt(1), big.NewInt(0), big.NewInt(2)},
+		"id=q":         {big.NewInt(1), new(big.Int).Set(q), big.NewInt(2)},
+		"id=2q":        {two, big.NewInt(1), big.NewInt(2)},
+		"dup":          {big.NewInt(3), big.NewInt(4), big.NewInt(3)},
+		"i and i+q":    {big.NewInt(5), big.NewInt(6), new(big.Int).Add(q, big.NewInt(5))},
+		"i and i+2q":   {big.NewInt(5), new(big.Int).Add(two, big.NewInt(5)), big.NewInt(7)},
+		"q-1 and 2q-1": {new(big.Int).Sub(q, big1), new(big.Int).Sub(two, big1), big.NewInt(7)},
 	}
 	for what, ids := range bad {
 		var err error
